@@ -1,6 +1,6 @@
 """C10 — no terminal stall or configuration value can hang a client call."""
 from .. import common as C, structs as S, clientgen as G
-from .c09 import baseline, HISTORIES
+from .c09 import baseline, HISTORIES, VARIANTS
 from .c07 import run_histories
 
 LEAN_MODULES = ["ZvtVerif.Properties.C10"]
@@ -25,12 +25,24 @@ def run(ctx, out):
             for j in range(len(a.trigger)):
                 ops.append(G.op_line(cfg, calls, G.script_str(cfg, None, {(0, j): "stall"})))
                 meta.append((cfg, calls, f"stall@{j}", 1))
+    # start-up variants: the terminal reports another terminal id (06 1B exchange), the configured terminal id is empty
+    for calls, mx, var in VARIANTS:
+        cfg = G.default_cfg(max=mx, timeout=15)
+        if "cfg_tid" in var:
+            cfg = dict(cfg, tid=var["cfg_tid"])
+        ttid = var.get("ttid")
+        a = baseline(spec, cfg, calls, None, ttid)
+        for j in range(len(a.trigger)):
+            ops.append(G.op_line(cfg, calls, G.script_str(cfg, None, {(0, j): "stall"}, None, None, ttid)))
+            meta.append((cfg, calls, f"variant-stall@{j}", 1))
     # the same against a CHATTY terminal: every exchange whose reply set has them is answered with two intermediate statuses before
     # its final packet, so that there are stall positions BETWEEN two reply packets of an exchange (not only before the first reply)
     P = G.Packets(spec)
     def chatty(cfg):
         a0 = G.Abs(spec, cfg, {}, None, None)
-        return {kind: [[P.intermediate(), P.intermediate()] + a0.replies(kind)] * 60 for kind in ("06c0", "0693", "0650", "0622", "0623", "0625")}
+        # (read_card's reply set has no print packets; the others get an intermediate status, a print line and a print text block)
+        return {kind: [([P.intermediate(), P.intermediate()] if kind == "06c0" else [P.intermediate(), P.print_line("chatty"), P.print_text_block()]) + a0.replies(kind)] * 60
+                for kind in ("06c0", "0693", "0650", "0622", "0623", "0625")}
     for calls, mx in HISTORIES:
         for t in ([15] if "readcard" not in calls else ([0, 15, 255] if not thorough else timeouts)):
             cfg = G.default_cfg(max=mx, timeout=t)
